@@ -73,8 +73,15 @@ impl Rng {
 }
 
 /// Deterministic content of byte `off` of data stream `stream`.
+/// Streams numbered 200 and up carry text: valid UTF-8 with characters of every encoded length, so
+/// that a cut (end of output, a size limit) falls inside a character about half of the time.
+const TEXT_PATTERN: &[u8] = "a\u{20ac}\u{e9}\u{1f600}z\n".as_bytes();
+
 #[inline]
 pub fn stream_byte(stream: u32, off: u64) -> u8 {
+    if stream >= 200 {
+        return TEXT_PATTERN[((off + stream as u64 * 5) % TEXT_PATTERN.len() as u64) as usize];
+    }
     // cheap, position-dependent, covers all 256 values incl. NUL and
     // invalid UTF-8; consecutive bytes differ so shifts are visible.
     let x = (off.wrapping_mul(0x9E3779B97F4A7C15) ^ ((stream as u64) << 32 | stream as u64))
